@@ -167,6 +167,16 @@ def build_bs(ctx, case):
                    classification=spec.get("cls"), kind=kind, pev=spec.get("pev"), in_baseline=kind != "unexp",
                    base=spec.get("base"))
         u.res = spec.get("res")
+        if spec.get("zero_votes"):
+            # counts are symbolic but constrained to 0 (so that every quantity derived from them stays a Sym cell: numpy's object
+            # loops would otherwise divide plain floats the Python way and raise ZeroDivisionError on 0/0)
+            u.res = None
+            u.kind = "zero_votes"
+            sc.add(u)
+            for k_, v_ in u.vals.items():
+                if k_.startswith("results_"):
+                    ctx.assume(v_ == 0)
+            continue
         sc.add_concrete(u) if u.res is not None else sc.add(u)
     return sc
 
